@@ -210,6 +210,8 @@ def run(sc):
                                            (int(l) if isinstance(l, str) and l.isdigit() else (l.encode() if isinstance(l, str) else l)))
                                           for p, l in route["segs"]])
                     rarg = [PortSegment(p, l) for p, l in route["segs"]]
+                    if route.get("seq") == "tuple":
+                        rarg = tuple(rarg)
                 elif isinstance(route, dict) and "hex" in route:
                     rarg = bytes.fromhex(route["hex"])
                     exp_hops = norm_hops([(p, val_of(l)) for p, l in route["hops"]])
@@ -255,10 +257,11 @@ def run(sc):
                 if op.get("attr") in (0, {"hex": ""}):
                     want_attr = None       # a falsy attribute is documented as 'no attribute'
                 if (r["service"], r["cls"], r["inst"], r["attr"]) != (op["service"], num_of(op["cls"]), num_of(op["inst"]), want_attr):
-                    hits.hit("C14", "generic.delivery", f"object saw service 0x{r['service']:02x} class {r['cls']:#x} instance "
-                             f"{r['inst']:#x} attribute {r['attr']}, requested 0x{op['service']:02x} {num_of(op['cls']):#x} "
+                    hx = lambda v: "none" if v is None else f"{v:#x}"       # a decoded path may lack any of the three
+                    hits.hit("C14", "generic.delivery", f"object saw service 0x{r['service']:02x} class {hx(r['cls'])} instance "
+                             f"{hx(r['inst'])} attribute {r['attr']}, requested 0x{op['service']:02x} {num_of(op['cls']):#x} "
                              f"{num_of(op['inst']):#x} {want_attr}", what="address", **feat)
-                    hits.hit("C09", "path.denotes", f"generic path decoded to ({r['cls']:#x},{r['inst']:#x},{r['attr']}) "
+                    hits.hit("C09", "path.denotes", f"generic path decoded to ({hx(r['cls'])},{hx(r['inst'])},{r['attr']}) "
                              f"instead of ({num_of(op['cls']):#x},{num_of(op['inst']):#x},{want_attr})", kind="generic",
                              rw="g", unresolved=False)
                 exp_transport = {"connected": "connected", "unconnected": "ucmm", "unconnected_send": "unconnected_send"}[mode]
@@ -293,7 +296,16 @@ def run(sc):
                 # the answer
                 ok_status = rep["status"] == 0
                 rdata = bytes.fromhex(rep["data"])
-                if ok_status:
+                if op.get("partial"):
+                    dt = op.get("data_type")
+                    want, decodable = (rdata, True) if dt is None else ref_decode(dt, rdata)
+                    as_success = bool(res) and decodable and res.value == want
+                    as_failure = not bool(res) and isinstance(res.error, str) and bool(res.error.strip())
+                    if not (as_success or as_failure):
+                        hits.hit("C14", "generic.reply", f"partial-transfer reply (status 6, data {rdata.hex()[:40]}, type {dt}) came "
+                                 f"back as {str(res)[:120]}: neither the data nor a failure with an error text",
+                                 what="partial", **feat)
+                elif ok_status:
                     dt = op.get("data_type")
                     if dt is None:
                         want = rdata
@@ -566,6 +578,8 @@ def gen(seed, tier, prop="C14"):
             path = r.choice((f"10.0.0.1/{cslot}", f"10.0.0.1/bp/{cslot}", f"10.0.0.1/backplane/{cslot}", f"10.0.0.1,1,{cslot}"))
         else:
             path = r.choice((f"10.0.0.1/bp/{cslot}", f"10.0.0.1/1/{cslot}", f"10.0.0.1\\backplane\\{cslot}"))
+            if prop == "C16" and r.random() < 0.3:
+                path = "10.0.0.1"        # a CIPDriver pointed at the Ethernet module itself asks for the modules behind it
     elif layout == "multihop":
         from .logix import HOP_IPS
         n1 = r.choice((4, 7))
@@ -718,8 +732,15 @@ def gen(seed, tier, prop="C14"):
         dt = r.choice((None, None, "DINT", "UINT", "STRING", "struct"))
         status = 0 if r.random() < 0.75 else r.choice((0x01, 0x05, 0x06, 0x08, 0x0E, 0x14, 0x16, 0x26, 0xFF, r.randrange(1, 256)))
         svc = r.choice((0x01, 0x0E, 0x10, 0x4B, 0x4C, 0x32, 0x7F, r.randrange(1, 0x80)))
+        partial = False
         if status == 6 and svc in (0x52, 0x53, 0x55, 0x0A, 0x03):
             status = 5          # partial transfer is not a refusal for the services that continue
+        if mode == "connected" and r.random() < 0.06:
+            # status 6 with data on a service that continues: the statement leaves open whether a generic message
+            # reports that as success (data returned/decoded) or as failure (falsy, error text) - but it is one of them
+            svc = r.choice((0x52, 0x53, 0x55, 0x0A, 0x03))
+            status = 6
+            partial = True
         if dt is None:
             rdata = bytes(r.randrange(256) for _ in range(r.choice((0, 1, 2, 5, 64, 300))))
         elif dt == "DINT":
@@ -735,7 +756,12 @@ def gen(seed, tier, prop="C14"):
         ops.append({"id": oid, "kind": "generic", "service": svc,
                     "cls": as_arg(r, cls_n), "inst": as_arg(r, inst_n, max_width=4), "attr": attr, "data": data.hex(), "mode": mode,
                     "route": route, "data_type": dt, "where": where,
-                    "reply": {"status": status, "ext": ext, "data": rdata.hex() if status == 0 else b"".hex()}})
+                    "reply": {"status": status, "ext": ext, "data": rdata.hex() if status == 0 or partial else b"".hex()}})
+        if partial:
+            ops[-1]["reply"]["ext"] = []
+            ops[-1]["partial"] = True
+        if isinstance(route, dict) and "segs" in route and r.random() < 0.3:
+            ops[-1]["route"] = dict(route, seq="tuple")      # any sequence of segments, not only a list
     ops.append({"id": "oz", "kind": "close"})
     if dcls == "LogixDriver" and r.random() < 0.2:
         ops.insert(r.randrange(0, len(ops) - 1), {"id": "mv", "kind": "micro800_visit"})
